@@ -72,12 +72,9 @@ class Lin:
         if h == "binop" and t[1] in "+-":
             self.conds(t[2], acc)
             self.conds(t[3], acc)
-        elif h == "binop" and t[1] in ("*", "/"):
-            a, b = t[2], t[3]
-            if num(a) is not None:
-                self.conds(b, acc)
-            elif num(b) is not None:
-                self.conds(a, acc)
+        elif h == "binop" and t[1] in ("*", "/", "**"):
+            self.conds(t[2], acc)
+            self.conds(t[3], acc)
         elif h == "unop" and t[1] in "+-":
             self.conds(t[2], acc)
         elif h == "call" and t[1][0] == "name" and t[1][1] in WHERE and len(t[2]) == 3:
@@ -97,69 +94,97 @@ class Lin:
     def cond_key(self, c):
         return ts(c, self.ev)
 
-    # -- linearisation under an assignment -------------------------------------
+    # -- polynomial normal form under an assignment --------------------------------
+    # A polynomial is {monomial: Fraction}; a monomial is a sorted tuple of atom strings ("" = constant 1).
+    MAXTERMS = 400
+
     def lin(self, t, asg=None, normed=False):
         if not normed:
             t = self.norm(t)
+        p = self._poly(t, asg or {})
         out = {}
-        self._lin(t, Fraction(1), asg or {}, out)
+        for mono, c in p.items():
+            if c == 0:
+                continue
+            key = "1" if not mono else (mono[0] if len(mono) == 1 else "mul(" + ", ".join(mono) + ")")
+            out[key] = out.get(key, Fraction(0)) + c
         return {k: v for k, v in out.items() if v != 0}
 
-    def _add(self, out, k, c):
-        out[k] = out.get(k, Fraction(0)) + c
+    @staticmethod
+    def _padd(a, b, sign=1):
+        out = dict(a)
+        for m, c in b.items():
+            out[m] = out.get(m, Fraction(0)) + sign * c
+            if out[m] == 0:
+                del out[m]
+        return out
 
-    def _lin(self, t, coef, asg, out):
+    def _pmul(self, a, b):
+        if len(a) * len(b) > self.MAXTERMS:
+            raise ValueError("polynomial too large")
+        out = {}
+        for m1, c1 in a.items():
+            for m2, c2 in b.items():
+                m = tuple(sorted(m1 + m2))
+                out[m] = out.get(m, Fraction(0)) + c1 * c2
+        return {m: c for m, c in out.items() if c != 0}
+
+    def _poly(self, t, asg):
         h = t[0]
         n = num(t)
         if n is not None:
-            if n != 0:
-                self._add(out, "1", coef * n)
-            return
+            return {(): n} if n != 0 else {}
         if h == "binop":
             op, a, b = t[1], t[2], t[3]
             if op == "+":
-                self._lin(a, coef, asg, out)
-                self._lin(b, coef, asg, out)
-                return
+                return self._padd(self._poly(a, asg), self._poly(b, asg))
             if op == "-":
-                self._lin(a, coef, asg, out)
-                self._lin(b, -coef, asg, out)
-                return
+                return self._padd(self._poly(a, asg), self._poly(b, asg), -1)
             if op == "*":
-                na, nb = num(a), num(b)
-                if na is not None:
-                    self._lin(b, coef * na, asg, out)
-                    return
-                if nb is not None:
-                    self._lin(a, coef * nb, asg, out)
-                    return
-                fa, fb = self.atom(a, asg), self.atom(b, asg)
-                self._add(out, "mul(" + ", ".join(sorted([fa, fb])) + ")", coef)
-                return
+                return self._pmul(self._poly(a, asg), self._poly(b, asg))
             if op == "/":
                 nb = num(b)
                 if nb is not None and nb != 0:
-                    self._lin(a, coef / nb, asg, out)
-                    return
+                    return {m: c / nb for m, c in self._poly(a, asg).items()}
+                pb = self._poly(b, asg)
+                if len(pb) == 1:
+                    (mb, cb), = pb.items()
+                    if cb != 0:
+                        inv = tuple(sorted("inv(" + f + ")" for f in mb))
+                        return self._pmul(self._poly(a, asg), {inv: 1 / cb})
+                return self._pmul(self._poly(a, asg), {("inv(" + self.atom(b, asg) + ")",): Fraction(1)})
+            if op == "**":
+                nb = num(b)
+                if nb is not None and nb.denominator == 1 and 0 <= nb <= 4:
+                    out = {(): Fraction(1)}
+                    pa = self._poly(a, asg)
+                    for _ in range(int(nb)):
+                        out = self._pmul(out, pa)
+                    return out
         if h == "unop" and t[1] == "-":
-            self._lin(t[2], -coef, asg, out)
-            return
+            return {m: -c for m, c in self._poly(t[2], asg).items()}
         if h == "unop" and t[1] == "+":
-            self._lin(t[2], coef, asg, out)
-            return
+            return self._poly(t[2], asg)
         if h == "call" and t[1][0] == "name" and t[1][1] in WHERE and len(t[2]) == 3:
             k = self.cond_key(t[2][0])
             if k in asg:
-                self._lin(t[2][1] if asg[k] else t[2][2], coef, asg, out)
-                return
+                return self._poly(t[2][1] if asg[k] else t[2][2], asg)
         if h == "ifexp":
             k = self.cond_key(t[1])
             if k in asg:
-                self._lin(t[2] if asg[k] else t[3], coef, asg, out)
-                return
-        self._add(out, self.atom(t, asg), coef)
+                return self._poly(t[2] if asg[k] else t[3], asg)
+        return {(self.atom(t, asg),): Fraction(1)}
 
     def atom(self, t, asg):
+        # resolve decided conditions inside atoms too, so that atoms are compared case by case
+        if asg:
+            def f(x):
+                if x[0] == "ifexp" and self.cond_key(x[1]) in asg:
+                    return x[2] if asg[self.cond_key(x[1])] else x[3]
+                if x[0] == "call" and x[1][0] == "name" and x[1][1] in WHERE and len(x[2]) == 3 and self.cond_key(x[2][0]) in asg:
+                    return x[2][1] if asg[self.cond_key(x[2][0])] else x[2][2]
+                return None
+            t = subst(t, f)
         return ts(t, self.ev)
 
     def cases(self, t):
